@@ -271,6 +271,15 @@ def _g_remove(u, h, ns, single, safe):
     u.H(h).remove(arg[0] if single and arg else arg, safe=safe)
 
 
+@op("g_move", "hn")
+def _g_move(u, h, n):
+    """Two public calls: remove the node from the graph it is in, append it to another one."""
+    node = u.N(n)
+    if node.graph is not None:
+        node.graph.remove(node)
+    u.H(h).append(node)
+
+
 @op("g_sort", "h")
 def _g_sort(u, h):
     u.H(h).sort()
